@@ -163,20 +163,20 @@ ADD9 = {
  "C15": " Round 9: R-C15-scheme (as C11); the re-encoding of tokens may live in a helper of the same file; the null-result rule finds the function that asks for the tokens.",
 }
 ADD10 = {
- "C01": " Round 10: blanks and comments are accepted between any two tokens of a production (R-C01-trivia, the rule of C08 registered here); the action of a labelled token choice must look at the token's kind or text (R-C01-choiceid).",
+ "C01": " Round 10: blanks and comments are accepted between any two tokens of a production (R-C01-trivia, the rule of C08 registered here); the action of a labelled token choice must look at the token's kind or text (R-C01-choiceid). Round 11: a real literal is rounded once (R-C01-oneround).",
  "C02": " Round 10: a table that visit methods fill and reset is reset below every kind of library element from which the filling method is reachable (R-C02-scope, every-way clause; found and fixed configuration globals leaking into later POUs).",
  "C03": " Round 10: the declaration-local rules keep no table of other declarations (R-C03-local); push returns Ok only behind the call that stores the file (R-C03-pushadds); main hands the command's Result on unchanged (R-C03-exit).",
- "C04": " Round 10: byte offsets are used on the string they were found in (R-C04-samestr); what runs for a lexer error follows the Err edge of later tests of the same value (R-C04-errrun).",
- "C05": " Round 10: every token kind that can contain a line break is counted character by character on every path of a lexer-loop iteration that kind can take (R-C05-linecol clause 3, path-sensitive per kind); inside lsp_project the document text is only sliced and measured (R-C05-measured); a label joined from a span that an analyzer transform fills with the default span (R-C05-prov join clause); the span of a number includes an optional plus sign (R-C05-signspan).",
+ "C04": " Round 10: byte offsets are used on the string they were found in (R-C04-samestr); what runs for a lexer error follows the Err edge of later tests of the same value (R-C04-errrun). Round 11: the grammar's start rule accepts the empty token list, so the error mapping never runs for position 0 (R-C04-emptyok).",
+ "C05": " Round 10: every token kind that can contain a line break is counted character by character on every path of a lexer-loop iteration that kind can take (R-C05-linecol clause 3, path-sensitive per kind); inside lsp_project the document text is only sliced and measured (R-C05-measured); a label joined from a span that an analyzer transform fills with the default span (R-C05-prov join clause); the span of a number includes an optional plus sign (R-C05-signspan). Round 11: offsets are used on the string they were found in (R-C05-samestr).",
  "C06": " Round 10: the set of files does not shrink while arguments are added (R-C06-grow); every marker search of a pre-processing step is repeated until nothing is found (R-C06-everyblock; found and fixed: only the first OSCAT block of a file was blanked).",
  "C07": " Round 10: every way from a library element / type declaration kind to a method of the graph builder that needs the current declaration passes an override that sets it (R-C07-context; found and fixed: simple type declarations with an initial value).",
  "C08": " Round 10: in the analyzer the display text of a name only flows into diagnostic context (R-C08-nametext); R-C08-everyblock (as C06).",
  "C09": " Round 10: no floating-point arithmetic on literal paths except the grammar's sign constant (R-C09-oneround).",
  "C10": " Round 10: terminals of a production are written in the production's order, among themselves and relative to the children (R-C10-order, 229 obligations); comma-separated writers write exactly one comma between consecutive elements on every feasible path - flags, peek and list emptiness are tracked (R-C10-seplist).",
- "C12": " Round 10: R-C12-samestr, R-C12-errrun (as C04).",
- "C13": " Round 10: push returns Ok only behind the call that stores the file (R-C13-pushadds).",
- "C14": " Round 10: every argument of logos Lexer::bump is a byte quantity (R-C14-bump); offsets found in a part of a text, or a match end (position + needle length), are offsets of that text (R-C14-samestr).",
- "C15": " Round 10: R-C15-linecol clause 3 (as C05); the document text is only sliced and measured inside lsp_project (R-C15-measured).",
+ "C12": " Round 10: R-C12-samestr, R-C12-errrun (as C04). Round 11: R-C12-emptyok (as C04).",
+ "C13": " Round 10: push returns Ok only behind the call that stores the file (R-C13-pushadds). Round 11: the path arguments are not rewritten by the argument parser (R-C13-argv); every tokenized file's problems are tested before the next file (R-C13-everyfile).",
+ "C14": " Round 10: every argument of logos Lexer::bump is a byte quantity (R-C14-bump); offsets found in a part of a text, or a match end (position + needle length), are offsets of that text (R-C14-samestr). Round 11: the decoded text is only copied on its way to the result (R-C14-asdecoded).",
+ "C15": " Round 10: R-C15-linecol clause 3 (as C05); the document text is only sliced and measured inside lsp_project (R-C15-measured). Round 11: of several whole-document events the last one counts (R-C15-last).",
 }
 NA_REASON = "check not built yet (round 1 in progress); see DESIGN.md section 3 for the planned static rules"
 props = [json.loads(l) for l in open("/verif/properties.jsonl")]
